@@ -599,6 +599,7 @@ callback_readdata(void * cookie, int status)
 	struct http_cookie * H = cookie;
 	uint8_t * buf;
 	size_t buflen;
+	size_t bodylen;
 	size_t waitlen;
 
 	/*
@@ -615,8 +616,21 @@ callback_readdata(void * cookie, int status)
 	if (buflen > H->readlen)
 		buflen = H->readlen;
 
+	/*
+	 * In chunked mode the last 2 bytes of the read are the EOL following
+	 * the chunk data; they are not part of the body (and might not fit
+	 * within the maximum body length).
+	 */
+	bodylen = buflen;
+	if (H->chunked) {
+		if (H->readlen <= 2)
+			bodylen = 0;
+		else if (bodylen > H->readlen - 2)
+			bodylen = H->readlen - 2;
+	}
+
 	/* Add this to our internal buffer. */
-	if (addbody(H, buf, buflen))
+	if (addbody(H, buf, bodylen))
 		return (die(H));
 
 	/* Consume the data. */
@@ -629,9 +643,6 @@ callback_readdata(void * cookie, int status)
 	if (H->readlen == 0) {
 		/* Was this just one chunk from a chunked encoding? */
 		if (H->chunked) {
-			/* Strip the trailing EOL. */
-			H->res.bodylen -= 2;
-
 			/* Get the next chunk. */
 			return (callback_chunkedheader(H, 0));
 		}
@@ -713,7 +724,7 @@ callback_chunkedheader(void * cookie, int status)
 		if (clen > SIZE_MAX - 2)
 			return (toobig(H));
 
-		/* Read the chunk data plus extra EOL (we strip it later). */
+		/* Read the chunk data plus extra EOL (which we don't store). */
 		H->readlen = clen + 2;
 		return (callback_readdata(H, 0));
 	}
